@@ -3,10 +3,10 @@
    Statements only; proofs in Proofs.IsoBitsProofs.  The claim is about chython/algorithms/_isomorphism.pyx AS SOURCE
    (run through a transpiler by the check; the compiled extension cannot be built here). *)
 From Coq Require Import ZArith List Bool String.
-From Model Require Import PyBase PeriodicTable IsoBits IsoBitsExt IsoBitsPyx.
+From Model Require Import PyBase PeriodicTable IsoBits IsoBitsExt IsoBitsPyx IsoBitsFuel.
 From Model Require Iso.
-From Gen Require Import Elements IsoClosure.
-From Proofs Require Import IsoBitsProofs IsoBitsSearchProofs IsoBitsExtProofs IsoClosureTie IsoBitsPyxProofs.
+From Gen Require Import Elements IsoClosure IsoGuard.
+From Proofs Require Import IsoBitsProofs IsoBitsSearchProofs IsoBitsExtProofs IsoClosureTie IsoBitsPyxProofs IsoBitsFuelProofs IsoGuardTie.
 Import ListNotations.
 Open Scope Z_scope.
 
@@ -284,3 +284,112 @@ Theorem C09_source_struct_layouts_agree :
   map snd g_pyx_bond_t = ["bond"; "index"]%string.
 Proof. exact struct_layouts_agree. Qed.
 Print Assumptions C09_source_struct_layouts_agree.
+
+(* MORE OF THE SOURCE, regenerated on every run by tools/gen_isoguard.py into Gen.IsoGuard (statement by statement: `if` ->
+   if/then/else, assignment -> let, any()/all() over the atoms -> existsb/forallb, `is None` -> match on the option):
+   the guard `if _cython and any(a.implicit_hydrogens is None ...): _cython = False` and the selection of `components` in
+   QueryIsomorphism.get_mapping are exactly uses_mask_path of the model (so C09_get_mapping_equiv / C09_public_get_mapping_equiv
+   speak about the guard as it is written in the source now), the scope array of the inner get_mapping is scope_bits, and the
+   offset bookkeeping (start / closures / q_from / q_to, start / o_from / o_to) of the two buffer writers yields the
+   closure / from_ / to_ fields of enc_query and enc_mol. *)
+Theorem C09_source_guard_is_model : forall cython rm,
+  g_guard_test cython rm = cython && has_unknown_h rm /\ g_uses_mask_path cython rm = uses_mask_path cython rm.
+Proof. intros. split; [apply g_guard_test_is_model|apply g_uses_mask_path_is_model]. Qed.
+Print Assumptions C09_source_guard_is_model.
+
+Theorem C09_source_scope_array_is_model : forall rm s, g_scope_bits rm s = scope_bits rm s.
+Proof. exact g_scope_bits_is_model. Qed.
+Print Assumptions C09_source_scope_array_is_model.
+
+Theorem C09_source_query_offsets_are_model : forall rq,
+  map (fun a => (qa_closure a, qa_from a, qa_to a)) (qu_atoms (enc_query rq)) = g_q_offsets (map (fun e => zlen (rq_clos e)) rq) 0.
+Proof. exact g_q_offsets_is_enc_query. Qed.
+Print Assumptions C09_source_query_offsets_are_model.
+
+Theorem C09_source_molecule_offsets_are_model : forall rm,
+  map (fun a => (ma_from a, ma_to a)) (mo_atoms (enc_mol rm)) = g_m_offsets (map (fun a => zlen (ra_nbrs a)) rm) 0.
+Proof. exact g_m_offsets_is_enc_mol. Qed.
+Print Assumptions C09_source_molecule_offsets_are_model.
+
+Theorem C09_source_offsets_example :
+  g_q_offsets [0; 0; 2; 1] 0 = [(0, 0, 0); (0, 0, 0); (2, 0, 2); (1, 2, 3)] /\ g_m_offsets [1; 2; 1] 0 = [(0, 1); (1, 3); (3, 4)].
+Proof. exact g_offsets_example. Qed.
+Print Assumptions C09_source_offsets_example.
+
+(* FUEL.  The Python / C loops have no iteration counter; the Gallina loops count iterations with `fuel` and return None when it
+   is used up.  dfs_fuel_bound N D last = 1 + N * (number of nodes of the complete D-ary tree of height last) iterations always
+   suffice (N atoms, at most D neighbour records per atom, last = query atoms - 1): the searches TERMINATE, on any buffers / any
+   reference inputs, no hypothesis.  More fuel never changes a result.  So the out-of-fuel value None - and the `None => []`
+   branch of component_list inside public_get_mapping - is excluded by a theorem, and the equivalence theorems above (stated for
+   any fuel) are statements about the one result every sufficient fuel gives. *)
+Theorem C09_mask_search_terminates : forall qu mo scope fuel, (mask_fuel qu mo <= fuel)%nat ->
+  exists r, mask_search qu mo scope fuel = Some r.
+Proof. exact mask_search_terminates. Qed.
+Print Assumptions C09_mask_search_terminates.
+
+Theorem C09_ref_search_terminates : forall rq rm scope fuel, (ref_fuel rq rm <= fuel)%nat ->
+  exists r, ref_search rq rm scope fuel = Some r.
+Proof. exact ref_search_terminates. Qed.
+Print Assumptions C09_ref_search_terminates.
+
+Theorem C09_pyx_search_terminates : forall qu mo scope fuel, mo_ok mo -> (mask_fuel qu mo <= fuel)%nat ->
+  exists r, pyx_search qu mo scope fuel = Some r.
+Proof. exact pyx_search_terminates. Qed.
+Print Assumptions C09_pyx_search_terminates.
+
+Theorem C09_mask_search_fuel_monotone : forall qu mo scope fuel r, mask_search qu mo scope fuel = Some r ->
+  forall fuel', (fuel <= fuel')%nat -> mask_search qu mo scope fuel' = Some r.
+Proof. exact mask_search_fuel_mono. Qed.
+Print Assumptions C09_mask_search_fuel_monotone.
+
+Theorem C09_ref_search_fuel_monotone : forall rq rm scope fuel r, ref_search rq rm scope fuel = Some r ->
+  forall fuel', (fuel <= fuel')%nat -> ref_search rq rm scope fuel' = Some r.
+Proof. exact ref_search_fuel_mono. Qed.
+Print Assumptions C09_ref_search_fuel_monotone.
+
+(* one component / scope call under either flag: an observed `Some r` is the result for every larger fuel, and from
+   component_fuel on the result is one and the same and never None *)
+Theorem C09_component_call_fuel_monotone : forall cython rq rm scope fuel r,
+  component_mappings cython rq rm scope fuel = Some r ->
+  forall fuel', (fuel <= fuel')%nat -> component_mappings cython rq rm scope fuel' = Some r.
+Proof. exact component_mappings_fuel_mono. Qed.
+Print Assumptions C09_component_call_fuel_monotone.
+
+Theorem C09_component_call_fuel_irrelevant : forall cython rq rm scope f1 f2,
+  (component_fuel rq rm <= f1)%nat -> (component_fuel rq rm <= f2)%nat ->
+  component_mappings cython rq rm scope f1 = component_mappings cython rq rm scope f2 /  component_mappings cython rq rm scope f1 <> None.
+Proof. exact component_mappings_fuel_irrelevant. Qed.
+Print Assumptions C09_component_call_fuel_irrelevant.
+
+(* the public call: the same list of dictionaries for every fuel from public_fuel on, no component call inside it out of fuel *)
+Theorem C09_public_get_mapping_fuel_irrelevant : forall stereo_ok cython comps rm tcomps flt scope f1 f2,
+  (public_fuel comps rm <= f1)%nat -> (public_fuel comps rm <= f2)%nat ->
+  public_get_mapping stereo_ok cython comps rm tcomps flt scope f1 =
+  public_get_mapping stereo_ok cython comps rm tcomps flt scope f2.
+Proof. exact public_get_mapping_fuel_irrelevant. Qed.
+Print Assumptions C09_public_get_mapping_fuel_irrelevant.
+
+Theorem C09_public_no_component_out_of_fuel : forall cython comps rm fuel, (public_fuel comps rm <= fuel)%nat ->
+  forall rq s, In rq comps -> component_mappings cython rq rm (scope_bits rm s) fuel <> None.
+Proof. exact public_no_component_out_of_fuel. Qed.
+Print Assumptions C09_public_no_component_out_of_fuel.
+
+(* the two public calls agree for every pair of sufficient fuels (not even the same on both sides) *)
+Theorem C09_public_get_mapping_equiv_fuel_free : forall stereo_ok comps rm tcomps flt scope f1 f2,
+  Forall (fun rq => rq <> [] /\ wf_query rq /\ in_range_pair rq rm) comps ->
+  (has_unknown_h rm = false -> wf_mol rm) ->
+  (public_fuel comps rm <= f1)%nat -> (public_fuel comps rm <= f2)%nat ->
+  public_get_mapping stereo_ok true comps rm tcomps flt scope f1 =
+  public_get_mapping stereo_ok false comps rm tcomps flt scope f2.
+Proof. exact public_get_mapping_equiv_fuel_free. Qed.
+Print Assumptions C09_public_get_mapping_equiv_fuel_free.
+
+(* non-vacuity: the bound of the ring example is 53 iterations (16 are needed, 15 run out), of the public example 4 *)
+Theorem C09_fuel_examples :
+  mask_fuel (enc_query ex_rq) (enc_mol ex_rm) = 53%nat /\ ref_fuel ex_rq ex_rm = 53%nat /\
+  mask_search (enc_query ex_rq) (enc_mol ex_rm) [true; true; true; true] 53 =
+    Some [[3; 2; 1]; [3; 1; 2]; [2; 3; 1]; [2; 1; 3]; [1; 3; 2]; [1; 2; 3]] /\
+  mask_search (enc_query ex_rq) (enc_mol ex_rm) [true; true; true; true] 15 = None /\
+  public_fuel ex2_comps ex2_rm = 4%nat.
+Proof. exact fuel_examples. Qed.
+Print Assumptions C09_fuel_examples.
